@@ -263,9 +263,14 @@ class Interp:
             modname = modname[:-9]
         m = self.load_module(modname)
         parts = qualname.split('.')
+        if parts[0] not in m.env:
+            # the function under contract was removed / renamed in the tree under verification: nothing can be proved about it
+            raise Unsupported(f'{relpath} has no `{parts[0]}` any more (function under contract removed or renamed)')
         v = m.env[parts[0]]
         for p in parts[1:]:
             v = v.lookup(p) if isinstance(v, ClassV) else self.getattr(v, p)
+            if v is NOTFOUND:
+                raise Unsupported(f'{relpath} has no `{qualname}` any more (function under contract removed or renamed)')
         return v
 
     def get_nested_function(self, relpath, outer_qualname, inner_name, extra_env=None):
